@@ -1,88 +1,87 @@
 (* C02/Properties.v — property theorems only.  Each is closed by [exact lemma] and followed by
    [Print Assumptions]. *)
 From RM Require Import C08.Model.
-From RM Require Import C02.Model C02.Documented C02.Proofs1 C02.Proofs2 C02.Proofs3 C02.Proofs4 C02.Proofs5.
+From RM Require Import C02.Model C02.Documented C02.Proofs1 C02.Proofs2 C02.Proofs3 C02.Proofs4 C02.Proofs5 C02.Proofs6.
 Open Scope Z_scope.
 
 (* The layouts regenerated from minidump-common/src/format.rs on this run are the documented ones:
    same fields, same order, same types; same stream-type numbers, signatures, platform ids. *)
 Theorem c02_layouts_documented :
-  L_MINIDUMP_HEADER = D_MINIDUMP_HEADER /\
   N_MINIDUMP_HEADER = DN_MINIDUMP_HEADER /\
-  L_MINIDUMP_LOCATION_DESCRIPTOR = D_MINIDUMP_LOCATION_DESCRIPTOR /\
   N_MINIDUMP_LOCATION_DESCRIPTOR = DN_MINIDUMP_LOCATION_DESCRIPTOR /\
-  L_MINIDUMP_MEMORY_DESCRIPTOR = D_MINIDUMP_MEMORY_DESCRIPTOR /\
   N_MINIDUMP_MEMORY_DESCRIPTOR = DN_MINIDUMP_MEMORY_DESCRIPTOR /\
-  L_MINIDUMP_MEMORY_DESCRIPTOR64 = D_MINIDUMP_MEMORY_DESCRIPTOR64 /\
   N_MINIDUMP_MEMORY_DESCRIPTOR64 = DN_MINIDUMP_MEMORY_DESCRIPTOR64 /\
-  L_MINIDUMP_DIRECTORY = D_MINIDUMP_DIRECTORY /\
   N_MINIDUMP_DIRECTORY = DN_MINIDUMP_DIRECTORY /\
-  L_MINIDUMP_THREAD = D_MINIDUMP_THREAD /\
-  N_MINIDUMP_THREAD = DN_MINIDUMP_THREAD /\
-  L_MINIDUMP_THREAD_NAME = D_MINIDUMP_THREAD_NAME /\
   N_MINIDUMP_THREAD_NAME = DN_MINIDUMP_THREAD_NAME /\
-  L_VS_FIXEDFILEINFO = D_VS_FIXEDFILEINFO /\
   N_VS_FIXEDFILEINFO = DN_VS_FIXEDFILEINFO /\
-  L_MINIDUMP_MODULE = D_MINIDUMP_MODULE /\
   N_MINIDUMP_MODULE = DN_MINIDUMP_MODULE /\
-  L_MINIDUMP_UNLOADED_MODULE = D_MINIDUMP_UNLOADED_MODULE /\
   N_MINIDUMP_UNLOADED_MODULE = DN_MINIDUMP_UNLOADED_MODULE /\
-  L_GUID = D_GUID /\
-  N_GUID = DN_GUID /\
-  L_MINIDUMP_EXCEPTION = D_MINIDUMP_EXCEPTION /\
-  N_MINIDUMP_EXCEPTION = DN_MINIDUMP_EXCEPTION /\
-  L_MINIDUMP_EXCEPTION_STREAM = D_MINIDUMP_EXCEPTION_STREAM /\
-  N_MINIDUMP_EXCEPTION_STREAM = DN_MINIDUMP_EXCEPTION_STREAM /\
-  L_CPU_INFORMATION = D_CPU_INFORMATION /\
-  N_CPU_INFORMATION = DN_CPU_INFORMATION /\
-  L_X86CpuInfo = D_X86CpuInfo /\
-  N_X86CpuInfo = DN_X86CpuInfo /\
-  L_ARMCpuInfo = D_ARMCpuInfo /\
-  N_ARMCpuInfo = DN_ARMCpuInfo /\
-  L_OtherCpuInfo = D_OtherCpuInfo /\
-  N_OtherCpuInfo = DN_OtherCpuInfo /\
-  L_MINIDUMP_SYSTEM_INFO = D_MINIDUMP_SYSTEM_INFO /\
-  N_MINIDUMP_SYSTEM_INFO = DN_MINIDUMP_SYSTEM_INFO /\
-  L_MINIDUMP_MEMORY_INFO_LIST = D_MINIDUMP_MEMORY_INFO_LIST /\
-  N_MINIDUMP_MEMORY_INFO_LIST = DN_MINIDUMP_MEMORY_INFO_LIST /\
-  L_MINIDUMP_MEMORY_INFO = D_MINIDUMP_MEMORY_INFO /\
-  N_MINIDUMP_MEMORY_INFO = DN_MINIDUMP_MEMORY_INFO /\
-  L_SYSTEMTIME = D_SYSTEMTIME /\
-  N_SYSTEMTIME = DN_SYSTEMTIME /\
-  L_TIME_ZONE_INFORMATION = D_TIME_ZONE_INFORMATION /\
-  N_TIME_ZONE_INFORMATION = DN_TIME_ZONE_INFORMATION /\
-  L_XSTATE_FEATURE = D_XSTATE_FEATURE /\
-  N_XSTATE_FEATURE = DN_XSTATE_FEATURE /\
-  L_XSTATE_CONFIG_FEATURE_MSC_INFO = D_XSTATE_CONFIG_FEATURE_MSC_INFO /\
-  N_XSTATE_CONFIG_FEATURE_MSC_INFO = DN_XSTATE_CONFIG_FEATURE_MSC_INFO /\
-  L_FLOATING_SAVE_AREA_X86 = D_FLOATING_SAVE_AREA_X86 /\
-  N_FLOATING_SAVE_AREA_X86 = DN_FLOATING_SAVE_AREA_X86 /\
-  L_CONTEXT_X86 = D_CONTEXT_X86 /\
-  N_CONTEXT_X86 = DN_CONTEXT_X86 /\
-  L_CONTEXT_AMD64 = D_CONTEXT_AMD64 /\
-  N_CONTEXT_AMD64 = DN_CONTEXT_AMD64 /\
-  L_FLOATING_SAVE_AREA_ARM = D_FLOATING_SAVE_AREA_ARM /\
-  N_FLOATING_SAVE_AREA_ARM = DN_FLOATING_SAVE_AREA_ARM /\
-  L_CONTEXT_ARM = D_CONTEXT_ARM /\
-  N_CONTEXT_ARM = DN_CONTEXT_ARM /\
-  L_CONTEXT_ARM64 = D_CONTEXT_ARM64 /\
-  N_CONTEXT_ARM64 = DN_CONTEXT_ARM64 /\
-  L_CV_INFO_PDB20 = D_CV_INFO_PDB20 /\
   N_CV_INFO_PDB20 = DN_CV_INFO_PDB20 /\
-  L_CV_INFO_PDB70 = D_CV_INFO_PDB70 /\
+  N_GUID = DN_GUID /\
   N_CV_INFO_PDB70 = DN_CV_INFO_PDB70 /\
-  L_CV_INFO_ELF = D_CV_INFO_ELF /\
   N_CV_INFO_ELF = DN_CV_INFO_ELF /\
-  L_MINIDUMP_MISC_INFO = D_MINIDUMP_MISC_INFO /\
+  N_IMAGE_DEBUG_MISC = DN_IMAGE_DEBUG_MISC /\
+  N_MINIDUMP_THREAD = DN_MINIDUMP_THREAD /\
+  N_MINIDUMP_EXCEPTION = DN_MINIDUMP_EXCEPTION /\
+  N_MINIDUMP_EXCEPTION_STREAM = DN_MINIDUMP_EXCEPTION_STREAM /\
+  N_XMM_SAVE_AREA32 = DN_XMM_SAVE_AREA32 /\
+  N_SSE_REGISTERS = DN_SSE_REGISTERS /\
+  N_CONTEXT_AMD64 = DN_CONTEXT_AMD64 /\
+  N_FLOATING_SAVE_AREA_ARM = DN_FLOATING_SAVE_AREA_ARM /\
+  N_CONTEXT_ARM = DN_CONTEXT_ARM /\
+  N_CONTEXT_ARM64_OLD = DN_CONTEXT_ARM64_OLD /\
+  N_CONTEXT_ARM64 = DN_CONTEXT_ARM64 /\
+  N_FLOATING_SAVE_AREA_MIPS = DN_FLOATING_SAVE_AREA_MIPS /\
+  N_CONTEXT_MIPS = DN_CONTEXT_MIPS /\
+  N_FLOATING_SAVE_AREA_PPC = DN_FLOATING_SAVE_AREA_PPC /\
+  N_VECTOR_SAVE_AREA_PPC = DN_VECTOR_SAVE_AREA_PPC /\
+  N_CONTEXT_PPC = DN_CONTEXT_PPC /\
+  N_CONTEXT_PPC64 = DN_CONTEXT_PPC64 /\
+  N_FLOATING_SAVE_AREA_SPARC = DN_FLOATING_SAVE_AREA_SPARC /\
+  N_CONTEXT_SPARC = DN_CONTEXT_SPARC /\
+  N_FLOATING_SAVE_AREA_X86 = DN_FLOATING_SAVE_AREA_X86 /\
+  N_CONTEXT_X86 = DN_CONTEXT_X86 /\
+  N_CPU_INFORMATION = DN_CPU_INFORMATION /\
+  N_X86CpuInfo = DN_X86CpuInfo /\
+  N_ARMCpuInfo = DN_ARMCpuInfo /\
+  N_OtherCpuInfo = DN_OtherCpuInfo /\
+  N_MINIDUMP_SYSTEM_INFO = DN_MINIDUMP_SYSTEM_INFO /\
+  N_SYSTEMTIME = DN_SYSTEMTIME /\
+  N_TIME_ZONE_INFORMATION = DN_TIME_ZONE_INFORMATION /\
+  N_XSTATE_FEATURE = DN_XSTATE_FEATURE /\
+  N_XSTATE_CONFIG_FEATURE_MSC_INFO = DN_XSTATE_CONFIG_FEATURE_MSC_INFO /\
+  N_MINIDUMP_MEMORY_INFO_LIST = DN_MINIDUMP_MEMORY_INFO_LIST /\
+  N_MINIDUMP_MEMORY_INFO = DN_MINIDUMP_MEMORY_INFO /\
+  N_MINIDUMP_BREAKPAD_INFO = DN_MINIDUMP_BREAKPAD_INFO /\
+  N_MINIDUMP_ASSERTION_INFO = DN_MINIDUMP_ASSERTION_INFO /\
+  N_LINK_MAP_32 = DN_LINK_MAP_32 /\
+  N_DSO_DEBUG_32 = DN_DSO_DEBUG_32 /\
+  N_LINK_MAP_64 = DN_LINK_MAP_64 /\
+  N_DSO_DEBUG_64 = DN_DSO_DEBUG_64 /\
+  N_MINIDUMP_SIMPLE_STRING_DICTIONARY_ENTRY = DN_MINIDUMP_SIMPLE_STRING_DICTIONARY_ENTRY /\
+  N_MINIDUMP_SIMPLE_STRING_DICTIONARY = DN_MINIDUMP_SIMPLE_STRING_DICTIONARY /\
+  N_MINIDUMP_RVA_LIST = DN_MINIDUMP_RVA_LIST /\
+  N_MINIDUMP_ANNOTATION = DN_MINIDUMP_ANNOTATION /\
+  N_MINIDUMP_MODULE_CRASHPAD_INFO = DN_MINIDUMP_MODULE_CRASHPAD_INFO /\
+  N_MINIDUMP_MODULE_CRASHPAD_INFO_LINK = DN_MINIDUMP_MODULE_CRASHPAD_INFO_LINK /\
+  N_MINIDUMP_MODULE_CRASHPAD_INFO_LIST = DN_MINIDUMP_MODULE_CRASHPAD_INFO_LIST /\
+  N_MINIDUMP_CRASHPAD_INFO = DN_MINIDUMP_CRASHPAD_INFO /\
+  N_MINIDUMP_MAC_CRASH_INFO = DN_MINIDUMP_MAC_CRASH_INFO /\
+  N_MINIDUMP_MAC_BOOTARGS = DN_MINIDUMP_MAC_BOOTARGS /\
+  N_MINIDUMP_HANDLE_OBJECT_INFORMATION = DN_MINIDUMP_HANDLE_OBJECT_INFORMATION /\
+  N_MINIDUMP_HANDLE_DESCRIPTOR = DN_MINIDUMP_HANDLE_DESCRIPTOR /\
+  N_MINIDUMP_HANDLE_DESCRIPTOR_2 = DN_MINIDUMP_HANDLE_DESCRIPTOR_2 /\
+  N_MINIDUMP_HANDLE_DATA_STREAM = DN_MINIDUMP_HANDLE_DATA_STREAM /\
+  N_MINIDUMP_THREAD_INFO = DN_MINIDUMP_THREAD_INFO /\
   N_MINIDUMP_MISC_INFO = DN_MINIDUMP_MISC_INFO /\
-  L_MINIDUMP_MISC_INFO_2 = D_MINIDUMP_MISC_INFO_2 /\
   N_MINIDUMP_MISC_INFO_2 = DN_MINIDUMP_MISC_INFO_2 /\
-  L_MINIDUMP_MISC_INFO_3 = D_MINIDUMP_MISC_INFO_3 /\
   N_MINIDUMP_MISC_INFO_3 = DN_MINIDUMP_MISC_INFO_3 /\
-  L_MINIDUMP_MISC_INFO_4 = D_MINIDUMP_MISC_INFO_4 /\
   N_MINIDUMP_MISC_INFO_4 = DN_MINIDUMP_MISC_INFO_4 /\
-  L_MINIDUMP_MISC_INFO_5 = D_MINIDUMP_MISC_INFO_5 /\
   N_MINIDUMP_MISC_INFO_5 = DN_MINIDUMP_MISC_INFO_5 /\
+  N_MINIDUMP_MAC_CRASH_INFO_RECORD = DN_MINIDUMP_MAC_CRASH_INFO_RECORD /\
+  N_MINIDUMP_MAC_CRASH_INFO_RECORD_4 = DN_MINIDUMP_MAC_CRASH_INFO_RECORD_4 /\
+  N_MINIDUMP_MAC_CRASH_INFO_RECORD_5 = DN_MINIDUMP_MAC_CRASH_INFO_RECORD_5 /\
+  ALL_LAYOUTS = D_ALL_LAYOUTS /\
   MINIDUMP_SIGNATURE = DOC_MINIDUMP_SIGNATURE /\
   MINIDUMP_VERSION = DOC_MINIDUMP_VERSION /\
   VS_FFI_SIGNATURE = DOC_VS_FFI_SIGNATURE /\
@@ -98,10 +97,32 @@ Theorem c02_layouts_documented :
   ST_MiscInfoStream = DOC_ST_MiscInfoStream /\
   ST_MemoryInfoListStream = DOC_ST_MemoryInfoListStream /\
   ST_ThreadNamesStream = DOC_ST_ThreadNamesStream /\
+  ST_HandleDataStream = DOC_ST_HandleDataStream /\
+  ST_ThreadInfoListStream = DOC_ST_ThreadInfoListStream /\
+  ST_BreakpadInfoStream = DOC_ST_BreakpadInfoStream /\
+  ST_AssertionInfoStream = DOC_ST_AssertionInfoStream /\
+  ST_LinuxCpuInfo = DOC_ST_LinuxCpuInfo /\
+  ST_LinuxProcStatus = DOC_ST_LinuxProcStatus /\
+  ST_LinuxLsbRelease = DOC_ST_LinuxLsbRelease /\
+  ST_LinuxCmdLine = DOC_ST_LinuxCmdLine /\
+  ST_LinuxEnviron = DOC_ST_LinuxEnviron /\
+  ST_LinuxAuxv = DOC_ST_LinuxAuxv /\
+  ST_LinuxMaps = DOC_ST_LinuxMaps /\
+  ST_LinuxDsoDebug = DOC_ST_LinuxDsoDebug /\
+  ST_CrashpadInfoStream = DOC_ST_CrashpadInfoStream /\
+  ST_MozMacosCrashInfoStream = DOC_ST_MozMacosCrashInfoStream /\
+  ST_MozMacosBootargsStream = DOC_ST_MozMacosBootargsStream /\
+  ST_MozLinuxLimits = DOC_ST_MozLinuxLimits /\
+  ST_MozSoftErrors = DOC_ST_MozSoftErrors /\
   CF_CONTEXT_X86 = DOC_CF_CONTEXT_X86 /\
   CF_CONTEXT_AMD64 = DOC_CF_CONTEXT_AMD64 /\
   CF_CONTEXT_ARM = DOC_CF_CONTEXT_ARM /\
   CF_CONTEXT_ARM64 = DOC_CF_CONTEXT_ARM64 /\
+  CF_CONTEXT_ARM64_OLD = DOC_CF_CONTEXT_ARM64_OLD /\
+  CF_CONTEXT_MIPS = DOC_CF_CONTEXT_MIPS /\
+  CF_CONTEXT_PPC = DOC_CF_CONTEXT_PPC /\
+  CF_CONTEXT_PPC64 = DOC_CF_CONTEXT_PPC64 /\
+  CF_CONTEXT_SPARC = DOC_CF_CONTEXT_SPARC /\
   CF_ALL_BITS = DOC_CF_ALL_BITS /\
   CONTEXT_CPU_MASK = DOC_CONTEXT_CPU_MASK /\
   PROCESSOR_ARCHITECTURE_INTEL = DOC_PROCESSOR_ARCHITECTURE_INTEL /\
@@ -109,6 +130,12 @@ Theorem c02_layouts_documented :
   PROCESSOR_ARCHITECTURE_AMD64 = DOC_PROCESSOR_ARCHITECTURE_AMD64 /\
   PROCESSOR_ARCHITECTURE_IA32_ON_WIN64 = DOC_PROCESSOR_ARCHITECTURE_IA32_ON_WIN64 /\
   PROCESSOR_ARCHITECTURE_ARM64 = DOC_PROCESSOR_ARCHITECTURE_ARM64 /\
+  PROCESSOR_ARCHITECTURE_MIPS = DOC_PROCESSOR_ARCHITECTURE_MIPS /\
+  PROCESSOR_ARCHITECTURE_PPC = DOC_PROCESSOR_ARCHITECTURE_PPC /\
+  PROCESSOR_ARCHITECTURE_SPARC = DOC_PROCESSOR_ARCHITECTURE_SPARC /\
+  PROCESSOR_ARCHITECTURE_PPC64 = DOC_PROCESSOR_ARCHITECTURE_PPC64 /\
+  PROCESSOR_ARCHITECTURE_ARM64_OLD = DOC_PROCESSOR_ARCHITECTURE_ARM64_OLD /\
+  PROCESSOR_ARCHITECTURE_MIPS64 = DOC_PROCESSOR_ARCHITECTURE_MIPS64 /\
   CV_SIG_Pdb20 = DOC_CV_SIG_Pdb20 /\
   CV_SIG_Pdb70 = DOC_CV_SIG_Pdb70 /\
   CV_SIG_Elf = DOC_CV_SIG_Elf /\
@@ -168,13 +195,17 @@ Theorem c02_stream_roundtrips : forall e,
   sec_ok (enc_sysinfo e) (dec_sysinfo e) wf_sysinfo /\
   sec_ok (enc_misc e) (dec_misc e) wf_misc /\
   sec_ok (enc_exlist unloaded_codec e UNLOADED_HDR 4) (dec_exlist unloaded_codec e false) (forallb wf_unloaded) /\
-  sec_ok (enc_exlist meminfo_codec e MEMINFO_HDR 8) (dec_exlist meminfo_codec e true) (forallb wf_meminfo).
+  sec_ok (enc_exlist meminfo_codec e MEMINFO_HDR 8) (dec_exlist meminfo_codec e true) (forallb wf_meminfo) /\
+  (forall L, sec_ok (enc_flat L e) (dec_flat L e) (wf_flat L)) /\
+  (forall L, 1 <= lsize L < 4294967296 -> icodec_ok (flat_codec L) e (wf_flat L)) /\
+  sec_ok (enc_raw e) (dec_raw e) (fun _ => true).
 Proof. exact stream_roundtrips. Qed.
 Print Assumptions c02_stream_roundtrips.
 
-(* The whole dump, all ten modelled streams at once (system info, threads with stacks and contexts,
+(* The whole dump, all nineteen modelled streams at once (system info, threads with stacks and contexts,
    modules with CodeView records, MemoryList, Memory64List, exception, thread names, unloaded modules,
-   memory info, misc info), any subset present, any number of items, either byte order, arbitrary
+   memory info, misc info, Breakpad info, assertion info, thread info list, and - as byte-exact raw
+   streams - Linux cpuinfo / proc status / lsb-release / environ / maps / limits), any subset present, any number of items, either byte order, arbitrary
    leading directory entries: reading the serialized model returns exactly the model. *)
 Theorem c02_dump_roundtrip : forall e m,
   wf_model e m = true -> decode_dump (encode_dump e m) = Some (view_of e m).
@@ -213,6 +244,68 @@ Theorem c02_memory_bytes : forall rs1 r rs2 rg x,
 Proof. exact memory_bytes. Qed.
 Print Assumptions c02_memory_bytes.
 
+
+(* every struct of format.rs the translator can parse (74; see the comment at the end of Gen/Layouts.v
+   for the 4 it cannot) round-trips through the generic codec in both byte orders *)
+Theorem c02_all_layouts_roundtrip :
+  Forall (fun p => forall e v rest, wt (snd p) v = true ->
+                   dec e (snd p) (enc e (snd p) v ++ rest) = Some (v, rest) /\ zlen (enc e (snd p) v) = lsize (snd p)) ALL_LAYOUTS.
+Proof. exact all_layouts_roundtrip. Qed.
+Print Assumptions c02_all_layouts_roundtrip.
+
+(* CPU contexts: bytes -> registers.  For each architecture the reader supports, the layout regenerated from
+   format.rs; a well-typed register file written in either byte order reads back exactly when its
+   context_flags carry the architecture's constant (ContextFlagsCpu::from_flags), and is refused otherwise;
+   a blob shorter than the struct is refused *)
+Theorem c02_context_roundtrip : forall e arch L cf v rest,
+  ctx_spec arch = Some (L, cf) -> wt L v = true ->
+  read_context e arch (enc e L v ++ rest) = if flags_ok cf (ctx_flags arch v) then Some v else None.
+Proof. exact context_roundtrip. Qed.
+Print Assumptions c02_context_roundtrip.
+Theorem c02_context_layout_by_architecture :
+  ctx_spec PROCESSOR_ARCHITECTURE_INTEL = Some (L_CONTEXT_X86, CF_CONTEXT_X86) /\
+  ctx_spec PROCESSOR_ARCHITECTURE_IA32_ON_WIN64 = Some (L_CONTEXT_X86, CF_CONTEXT_X86) /\
+  ctx_spec PROCESSOR_ARCHITECTURE_AMD64 = Some (L_CONTEXT_AMD64, CF_CONTEXT_AMD64) /\
+  ctx_spec PROCESSOR_ARCHITECTURE_ARM = Some (L_CONTEXT_ARM, CF_CONTEXT_ARM) /\
+  ctx_spec PROCESSOR_ARCHITECTURE_ARM64 = Some (L_CONTEXT_ARM64, CF_CONTEXT_ARM64) /\
+  ctx_spec PROCESSOR_ARCHITECTURE_ARM64_OLD = Some (L_CONTEXT_ARM64_OLD, CF_CONTEXT_ARM64_OLD) /\
+  ctx_spec PROCESSOR_ARCHITECTURE_MIPS = Some (L_CONTEXT_MIPS, CF_CONTEXT_MIPS) /\
+  ctx_spec PROCESSOR_ARCHITECTURE_PPC = Some (L_CONTEXT_PPC, CF_CONTEXT_PPC) /\
+  ctx_spec PROCESSOR_ARCHITECTURE_PPC64 = Some (L_CONTEXT_PPC64, CF_CONTEXT_PPC64) /\
+  ctx_spec PROCESSOR_ARCHITECTURE_SPARC = Some (L_CONTEXT_SPARC, CF_CONTEXT_SPARC) /\
+  ctx_spec PROCESSOR_ARCHITECTURE_MIPS64 = None.
+Proof. exact ctx_spec_table. Qed.
+Print Assumptions c02_context_layout_by_architecture.
+Theorem c02_context_short : forall e arch L cf bytes,
+  ctx_spec arch = Some (L, cf) -> zlen bytes < lsize L -> read_context e arch bytes = None.
+Proof. exact context_short. Qed.
+Print Assumptions c02_context_short.
+
+(* identifiers: what the reader derives for the modules of a serialized model are the documented
+   functions of the model's own CodeView record / VS_FIXEDFILEINFO / OS ... *)
+Theorem c02_identifiers_derivation : forall e m mods, wf_model e m = true -> m_modules m = Some mods ->
+  option_map view_module_ids (decode_dump (encode_dump e m)) =
+  Some (Some (map (module_ids e (os_of_platform (option_map si_platform (m_sysinfo m)))) mods)).
+Proof. exact identifiers_derivation. Qed.
+Print Assumptions c02_identifiers_derivation.
+(* ... and these functions are: PDB70 -> GUID + age, none for the nil GUID whatever the age; PDB20 ->
+   signature + age; ELF -> none for an empty or all-zero build id, in a big-endian dump the build id itself
+   zero-padded / cut to 16 bytes; code identifiers are lower-case hexadecimal *)
+Theorem c02_debug_id_spec :
+  (forall e d1 d2 d3 d4 age f, read_debug_id e (CvPdb70 d1 d2 d3 d4 age f) =
+     if all_zero (uuid_of_fields d1 d2 d3 d4) then DbgNone else DbgUuid (uuid_of_fields d1 d2 d3 d4) age) /\
+  (forall e age f, read_debug_id e (CvPdb70 0 0 0 [0; 0; 0; 0; 0; 0; 0; 0] age f) = DbgNone) /\
+  (forall e off s age f, read_debug_id e (CvPdb20 off s age f) = DbgPdb20 s age) /\
+  (forall e bid, all_zero bid = true -> read_debug_id e (CvElf bid) = DbgNone) /\
+  (forall bid, all_zero bid = false -> all_in 1 bid = true ->
+     read_debug_id BE (CvElf bid) = DbgUuid (firstn 16 (bid ++ repeat 0 16)) 0).
+Proof. exact debug_id_spec. Qed.
+Print Assumptions c02_debug_id_spec.
+Theorem c02_code_id_lower_hex : forall os time size c id, 0 <= size ->
+  code_identifier os time size c = Some id -> forallb lower_hex id = true.
+Proof. exact code_id_lower_hex. Qed.
+Print Assumptions c02_code_id_lower_hex.
+
 (* ---- non-vacuity: a model with nine streams, duplicate directory entries, a null-stack thread,
    PDB70 / ELF CodeView records, a region at the top of the address space, is well-formed in both
    byte orders and is returned by the reader *)
@@ -242,12 +335,24 @@ Definition ex_model : model :=
      m_tnames := Some [(1, [109; 97; 105; 110]); (1, [])];
      m_unloaded := Some [ {| um_base := 8192; um_size := 4096; um_checksum := 3; um_time := 4; um_name := [120] |} ];
      m_meminfo := Some [[4096; 4096; 4; 0; 8192; 4096; 4; 131072; 0]; [18446744073709547520; 0; 1; 0; 4096; 65536; 1; 0; 0]];
-     m_misc := Some (1, [24; 1; 4242; 0; 0; 0]) |}.
+     m_misc := Some (1, [24; 1; 4242; 0; 0; 0]);
+     m_breakpad := Some [3; 1; 4294967295];
+     m_assertion := None;
+     m_thread_info := Some [[1; 0; 0; 259; 132223104000000000; 0; 5; 7; 4198400; 15]];
+     m_lx_cpuinfo := Some [112; 58; 48; 10]; m_lx_status := None; m_lx_lsb := Some []; m_lx_environ := None;
+     m_lx_maps := Some [48; 45; 49; 32; 114; 10]; m_lx_limits := None |}.
 
 Example c02_nonvacuous_model :
   wf_model LE ex_model = true /\ wf_model BE ex_model = true /\
   decode_dump (encode_dump BE ex_model) = Some (view_of BE ex_model) /\
   dir_lookup (m_extra_dir ex_model ++ [(ST_ThreadListStream, (1, 2))]) ST_ThreadListStream = Some (1, 2).
+Proof. vm_compute. repeat split. Qed.
+
+Example c02_nonvacuous_context :
+  let v := vtuple [VInt (CF_CONTEXT_ARM + 2); varr (repeat 7 16); VInt 16; vtuple [VInt 1; varr (repeat 2 32); varr (repeat 3 8)]] in
+  wt L_CONTEXT_ARM v = true /\ read_context BE PROCESSOR_ARCHITECTURE_ARM (enc BE L_CONTEXT_ARM v) = Some v /\
+  read_context LE PROCESSOR_ARCHITECTURE_ARM (enc BE L_CONTEXT_ARM v) = None /\
+  debug_id_string (read_debug_id LE (CvElf [1; 2; 3; 4; 5])) = Some [48;52;48;51;48;50;48;49;48;48;48;53;48;48;48;48;48;48;48;48;48;48;48;48;48;48;48;48;48;48;48;48;48].
 Proof. vm_compute. repeat split. Qed.
 
 Example c02_nonvacuous_memory :
